@@ -23,6 +23,7 @@ class TableInfo:
     join_condition = None
     join_type: str = None
     index: int = None
+    bare_name: bool = False
 
 class PlanJoin:
 
@@ -134,6 +135,9 @@ class PlanJoinTablesQuery:
                 parts = tuple(map(str.lower, parts))
                 aliases.append(parts)
 
+        # written without any qualifier: may be a CTE name
+        bare_name = len(table.parts) == 1
+
         # try to use default namespace
         integration = self.planner.default_namespace
         if len(table.parts) > 1:
@@ -148,7 +152,7 @@ class PlanJoinTablesQuery:
 
         sub_select = getattr(table, 'sub_select', None)
 
-        return TableInfo(integration, table, aliases, conditions=[], sub_select=sub_select)
+        return TableInfo(integration, table, aliases, conditions=[], sub_select=sub_select, bare_name=bare_name)
 
     def get_table_for_column(self, column: Identifier):
         if not isinstance(column, Identifier):
@@ -435,7 +439,7 @@ class PlanJoinTablesQuery:
             else:
                 query2.where = cond
 
-        step = self.planner.get_integration_select_step(query2)
+        step = self.planner.get_integration_select_step(query2, bare_name=item.bare_name)
         self.tables_fetch_step[item.index] = step
 
         self.add_plan_step(step)
